@@ -214,6 +214,142 @@ impl Mode for BusMode {
                     emit(format!("bus09 {}", ops.join(";")));
                 }
             }
+            16 => {
+                const VALS: [u8; 8] = [0x00, 0xff, 0x0f, 0xf0, 0x55, 0xaa, 0x01, 0x80];
+                let port_ops = |p: u32| -> Vec<String> {
+                    let mut v = Vec::new();
+                    for x in VALS.iter() {
+                        v.push(format!("w{:x}:{:x}", 0xfee000 + p - 1, x));
+                        v.push(format!("w{:x}:{:x}", 0xffffd0 + p - 1, x));
+                        v.push(format!("p{:x}:{:x}", p, x));
+                    }
+                    v.push(format!("r{:x}", 0xffffd0 + p - 1));
+                    v
+                };
+                // (a) bounded-exhaustive histories on one port, each followed by a final read
+                let depth = if ctx.quick() { 3 } else { 4 };
+                let ports: Vec<u32> = if ctx.quick() { vec![1, 5, 0xb] } else { (1..=11).collect() };
+                let mut idx = 0u64;
+                for &p in &ports {
+                    let ops = port_ops(p);
+                    let n = ops.len();
+                    let total = (n as u64).pow(depth);
+                    for code in 0..total {
+                        idx += 1;
+                        if !ctx.mine(idx) {
+                            continue;
+                        }
+                        let mut c = code;
+                        let mut h: Vec<&str> = Vec::new();
+                        for _ in 0..depth {
+                            h.push(&ops[(c % n as u64) as usize]);
+                            c /= n as u64;
+                        }
+                        emit(format!("bus16 {};r{:x}", h.join(";"), 0xffffd0 + p - 1));
+                    }
+                }
+                // (b) random histories up to length 64 over one or two ports, with time stamps
+                let nrand = if ctx.quick() { 20_000 } else { 400_000 } / ctx.nshards;
+                for _ in 0..nrand {
+                    let p1 = rng.range(1, 11) as u32;
+                    let p2 = rng.range(1, 11) as u32;
+                    let two = rng.chance(1, 2);
+                    let len = rng.range(1, 64);
+                    let (o1, o2) = (port_ops(p1), port_ops(p2));
+                    let mut h: Vec<String> = Vec::new();
+                    let mut t = 0u64;
+                    for _ in 0..len {
+                        if rng.chance(1, 6) {
+                            t += rng.below(100000);
+                            h.push(format!("s{:x}", t));
+                        }
+                        let ops = if two && rng.chance(1, 2) { &o2 } else { &o1 };
+                        // reads are a quarter of the operations; values mostly from the covering set
+                        if rng.chance(1, 4) {
+                            h.push(ops[ops.len() - 1].clone());
+                        } else if rng.chance(1, 5) {
+                            let pp = if two && rng.chance(1, 2) { p2 } else { p1 };
+                            let a = *rng.pick(&[0xfee000 + pp - 1, 0xffffd0 + p1 - 1]);
+                            h.push(format!("w{:x}:{:x}", a, rng.u8()));
+                        } else {
+                            h.push(rng.pick(&ops[..ops.len() - 1]).clone());
+                        }
+                    }
+                    h.push(format!("r{:x}", 0xffffd0 + p1 - 1));
+                    h.push(format!("r{:x}", 0xffffd0 + p2 - 1));
+                    emit(format!("bus16 {}", h.join(";")));
+                }
+            }
+            17 => {
+                let n = if ctx.quick() { 30_000 } else { 400_000 } / ctx.nshards;
+                let mut idx = 0u64;
+                // every TCR value appears as the first clock selection (x several histories)
+                for k in 0..n {
+                    idx += 1;
+                    let tcr0 = ((k + ctx.shard * 17) % 256) as u8;
+                    let mut h: Vec<String> = Vec::new();
+                    let clear = (tcr0 >> 3) & 3;
+                    let (mut a, mut b) = (rng.u8(), rng.u8());
+                    if rng.chance(1, 2) {
+                        // small compare values so that matches actually happen
+                        a = rng.range(1, 20) as u8;
+                        b = rng.range(1, 20) as u8;
+                    }
+                    if clear == 1 || clear == 2 || rng.chance(3, 4) {
+                        if a == 0 {
+                            a = 1;
+                        }
+                        if b == 0 {
+                            b = 2;
+                        }
+                        if a == b {
+                            b = b.wrapping_add(1).max(1);
+                            if a == b {
+                                b = b.wrapping_add(1).max(1);
+                            }
+                        }
+                    }
+                    h.push(format!("wffff84:{:x}", a));
+                    h.push(format!("wffff86:{:x}", b));
+                    if rng.chance(1, 2) {
+                        h.push(format!("wffff88:{:x}", if rng.chance(1, 2) { 0xf0 + rng.below(16) as u8 } else { rng.u8() }));
+                    }
+                    h.push(format!("wffff80:{:x}", tcr0));
+                    let len = rng.range(1, 60);
+                    for _ in 0..len {
+                        match rng.below(12) {
+                            0 => {
+                                // clock / enable change (CKS 0-3 mostly)
+                                let v = if rng.chance(9, 10) { (rng.u8() & 0xf8) | rng.below(4) as u8 } else { rng.u8() };
+                                // keep the compare-register side condition when a clear source gets selected
+                                let cl = (v >> 3) & 3;
+                                let v = if (cl == 1 || cl == 2) && (a == 0 || b == 0 || a == b) { v & 0xe7 } else { v };
+                                h.push(format!("wffff80:{:x}", v));
+                            }
+                            1 => h.push(format!("wffff82:{:x}", if rng.chance(1, 2) { 0 } else { rng.u8() })),
+                            2 => h.push("rffff88".to_string()),
+                            3 => h.push("rffff82".to_string()),
+                            4 => {
+                                // a long run of maximal charges (needed for the /8192 clock)
+                                for _ in 0..rng.range(8, 40) {
+                                    h.push(format!("t{:x}", if rng.chance(1, 2) { 255 } else { rng.range(200, 255) }));
+                                }
+                            }
+                            5 => h.push(format!("wffff88:{:x}", rng.u8())),
+                            _ => h.push(format!("t{:x}", match rng.below(4) {
+                                0 => 1,
+                                1 => rng.range(1, 8),
+                                2 => rng.range(1, 64),
+                                _ => rng.range(1, 255),
+                            })),
+                        }
+                    }
+                    h.push("rffff88".to_string());
+                    h.push("rffff82".to_string());
+                    let _ = idx;
+                    emit(format!("bus17 {}", h.join(";")));
+                }
+            }
             _ => {}
         }
     }
@@ -249,6 +385,33 @@ impl Mode for BusMode {
                 Verdict::Agree
             };
             return (v, key, Some(fnv(case)));
+        }
+        if word == "bus17" {
+            let nops = case.matches(';').count() + 1;
+            let key = format!("bus17 tcr0-cks={} len<={}", {
+                let t = case.split("wffff80:").nth(1).and_then(|x| x.split(';').next()).map(h).unwrap_or(0);
+                t & 7
+            }, ((nops + 31) / 32) * 32);
+            let corr = if imp != m { Some(format!("impl [{}] model [{}]", imp, m)) } else { None };
+            if !dom {
+                return (match corr { Some(c) => Verdict::Corr(c), None => Verdict::Out }, key, None);
+            }
+            let imp_ops = imp.split(' ').next().unwrap_or("");
+            let spec_ops = s.split(' ').next().unwrap_or("");
+            let why = if imp_ops != spec_ops {
+                format!("reads: impl {} spec {}", imp_ops, spec_ops)
+            } else if field(imp, "pend") != field(&s, "pend") {
+                format!("interrupt requests: impl {} spec {}", field(imp, "pend").unwrap_or(""), field(&s, "pend").unwrap_or(""))
+            } else {
+                String::new()
+            };
+            let v = if !why.is_empty() { Verdict::Oracle(why, None) } else if let Some(c) = corr { Verdict::Corr(c) } else { Verdict::Agree };
+            // non-trivial: the counter actually counted (some read differs from the written start values) or a request was raised
+            let nt = if imp.contains("pend=") && (field(imp, "pend").map(|p| !p.is_empty()).unwrap_or(false) || imp_ops.split(';').any(|x| x != "k" && x != "0")) { Some(fnv(case)) } else { None };
+            return (v, key, nt);
+        }
+        if word == "bus16" {
+            return judge16(ctx_known(_ctx), case, imp, &m, &s, dom);
         }
         let nops = case.matches(';').count() + 1;
         let key = format!("{} len<={}", word, ((nops + 15) / 16) * 16);
@@ -345,4 +508,66 @@ fn sweep_matches(imp: &str, spec: &str) -> bool {
         }
     }
     true
+}
+
+fn ctx_known(ctx: &Ctx) -> &Vec<String> {
+    &ctx.known
+}
+
+/// C16: reads must equal the latch Spec; the last `ioport:` message of every port must carry the Spec's
+/// driven output (0 if none was ever sent); time stamps must not decrease; messages must be well formed.
+fn judge16(known: &Vec<String>, case: &str, imp: &str, m: &str, s: &str, dom: bool) -> (Verdict, String, Option<u64>) {
+    let nops = case.matches(';').count() + 1;
+    let key = format!("bus16 len<={}", ((nops + 7) / 8) * 8);
+    let corr = if imp != m { Some(format!("impl [{}] model [{}]", imp, m)) } else { None };
+    if !dom {
+        return (match corr { Some(c) => Verdict::Corr(c), None => Verdict::Out }, key, None);
+    }
+    let imp_ops = imp.split(' ').next().unwrap_or("");
+    let spec_ops = s.split(' ').next().unwrap_or("");
+    let mut why = String::new();
+    if imp_ops != spec_ops {
+        why = format!("reads: impl {} spec {}", imp_ops, spec_ops);
+    } else {
+        let mut last: [u32; 12] = [0; 12];
+        let mut t_prev: u64 = 0;
+        for msg in field(imp, "msgs").unwrap_or("").split('|').filter(|x| !x.is_empty()) {
+            let f: Vec<&str> = msg.split(':').collect();
+            if f.len() != 4 || f[0] != "ioport" {
+                why = format!("malformed message {}", msg);
+                break;
+            }
+            let p = h(f[1]) as usize;
+            let t: u64 = f[3].parse().unwrap_or(u64::MAX);
+            if p < 1 || p > 11 || t == u64::MAX {
+                why = format!("malformed message {}", msg);
+                break;
+            }
+            if t < t_prev {
+                why = format!("time stamp decreases in {}", msg);
+                break;
+            }
+            t_prev = t;
+            last[p] = h(f[2]);
+        }
+        if why.is_empty() {
+            for e in field(s, "out").unwrap_or("").split(',').filter(|x| !x.is_empty()) {
+                if let Some((p, v)) = e.split_once(':') {
+                    if last[h(p) as usize] != h(v) {
+                        why = format!("port {}: last announced {:x}, driven output per spec {}", p, last[h(p) as usize], v);
+                        break;
+                    }
+                }
+            }
+        }
+    }
+    let kf = field(s, "kf").filter(|k| *k != "-").map(|k| format!("C16-{}", k)).filter(|id| known.contains(id));
+    let v = if !why.is_empty() {
+        Verdict::Oracle(why, if corr.is_none() { kf } else { None })
+    } else if let Some(c) = corr {
+        Verdict::Corr(c)
+    } else {
+        Verdict::Agree
+    };
+    (v, key, Some(fnv(case)))
 }
